@@ -118,6 +118,12 @@ func parseSource(src string) (*ast.VCL, error) {
 
 func parseSnippet(src string) ([]ast.Statement, error) { return safeParse(src, true) }
 
+func kindProbes(res *worker.Result, stmts []ast.Statement) {
+	for k := range astcmp.Kinds(stmts) {
+		res.Probe("kind:" + k)
+	}
+}
+
 func kindSig(stmts []ast.Statement) string {
 	m := astcmp.Kinds(stmts)
 	ks := make([]string, 0, len(m))
@@ -200,6 +206,7 @@ func runC19(c *worker.Ctx) {
 		return
 	}
 	c.Logf("mode=%d single=%v stmts=%d enc=%d", mode, single, len(stmts), len(enc))
+	kindProbes(res, stmts)
 	if len(enc) > 4096 {
 		res.Probe("encoding_over_4096")
 	}
@@ -300,7 +307,25 @@ func c19Culprit(stmts []ast.Statement) string {
 		}()
 		return ok
 	}
+	encodable := func(s ast.Statement) (ok bool) {
+		defer func() {
+			if recover() != nil {
+				ok = true // it is known to the encoder (and crashes it)
+			}
+		}()
+		_, err := codec.NewEncoder().Encode(s)
+		return err == nil
+	}
 	visit = func(s ast.Statement) bool {
+		if !encodable(s) {
+			// not a top-level node of the codec (SwitchControl, ElseStatement …): descend
+			for _, ch := range childStatements(s) {
+				if visit(ch) {
+					return true
+				}
+			}
+			return false
+		}
 		if try(s) {
 			return false
 		}
